@@ -39,8 +39,9 @@ class DocstringSchemaExtractor(BaseSchemaExtractor):
                 parameters_schema[param.arg_name] = {
                     'title': param.arg_name.capitalize(),
                     'description': param.description if param.description is not None else UNSET,
-                    'type': param.type_name,
                 }
+                if param.type_name is not None:
+                    parameters_schema[param.arg_name]['type'] = param.type_name
 
         return parameters_schema, {}
 
@@ -68,10 +69,11 @@ class DocstringSchemaExtractor(BaseSchemaExtractor):
             doc = docstring_parser.parse(method.__doc__)
             if doc and doc.returns:
                 result_schema = {
-                    'type': doc.returns.type_name,
                     'title': 'Result',
                     'description': doc.returns.description if doc.returns.description is not None else UNSET,
                 }
+                if doc.returns.type_name is not None:
+                    result_schema['type'] = doc.returns.type_name
 
         return result_schema, {}
 
